@@ -367,7 +367,7 @@ func agreeLevels(a, b opResult) string {
 		return fmt.Sprintf("output count %d vs %d", len(a.outs), len(b.outs))
 	}
 	for i := range a.outs {
-		if d := sameBits(a.outs[i], b.outs[i]); d != "" {
+		if d := sameValues(a.outs[i], b.outs[i]); d != "" {
 			return fmt.Sprintf("output %d: %s", i, d)
 		}
 	}
